@@ -412,6 +412,24 @@ impl Prop for C02 {
             };
             return Case { target: Target::Event, input, cuts, probe: Some(probe) };
         }
+        // very long string sequences (beyond 64 KiB) with non-ASCII and malformed payload bytes
+        if rng.chance(1, 1500) {
+            let mut input: Vec<u8> = Vec::new();
+            input.extend_from_slice(*rng.pick(&[&b"\x1b]52;"[..], b"\x1b[200~", b"\x1bP1+r", b"\x1b_G"]));
+            let want = *rng.pick(&[65_530usize, 65_536, 65_537, 66_000, 70_000]);
+            while input.len() < want {
+                let unit = hostile_utf8(rng);
+                if !unit.contains(&0x1b) {
+                    input.extend(unit);
+                }
+            }
+            if rng.chance(3, 4) {
+                input.extend_from_slice(*rng.pick(&[&b"\x1b\\"[..], b"\x07", b"\x1b[201~"]));
+            }
+            input.extend_from_slice(b"z");
+            let cuts = if rng.bool() { vec![] } else { vec![4096; input.len() / 4096 + 1] };
+            return Case { target: Target::Event, input, cuts, probe: None };
+        }
         let target = match rng.below(6) {
             0 => Target::Utf8,
             1 | 2 => Target::Command,
